@@ -662,6 +662,22 @@ def fam_keyed(ctx):
                            insts, maxlen=2 if ctx.quick else 3, cap_parents=40 if ctx.quick else None)
 
 
+def fam_rolling(ctx):
+    insts = []
+    for cols in (["a", "b", "c", "k"], ["b", "ab", "a", "k"]):
+        df = base(cols)
+        e = df.rolling(2).sum().expr
+        insts.append(Inst("rolling", e, [e.frame], f"frame={rc(cols)} gb=*", list(e.columns), tag="rolling.sum"))
+        e = df.rolling(2).max().expr
+        insts.append(Inst("rolling", e, [e.frame], f"frame={rc(cols)} gb=*", list(e.columns), tag="rolling.max"))
+        try:
+            e = df.groupby("k").rolling(2).sum().expr
+            insts.append(Inst("rolling", e, [e.frame], f"frame={rc(cols)} gb=k", list(e.columns), tag="gb.rolling.sum"))
+        except Exception:  # noqa: BLE001
+            pass
+    return run_rule_family(ctx, "RollingReduction._simplify_up", insts, cap_parents=60 if ctx.quick else None)
+
+
 MERGE_CONFIGS = [
     # (L cols, R cols, kwargs)
     (["k", "b", "c"], ["k", "b", "d"], dict(on="k")),
@@ -832,7 +848,7 @@ def fam_down(ctx):
 
 def families(ctx):
     return [fam_detproj, fam_plain, fam_reduction, fam_filter, fam_assign, fam_rename, fam_affix, fam_binop, fam_astype,
-            fam_dropna, fam_combine_first, fam_reset_index, fam_io, fam_keyed, fam_merge, fam_merge_labels, fam_concat, fam_down]
+            fam_dropna, fam_combine_first, fam_reset_index, fam_io, fam_keyed, fam_rolling, fam_merge, fam_merge_labels, fam_concat, fam_down]
 
 
 def support(ctx, broken):
